@@ -2,13 +2,14 @@ from common import COMMON_TRUST
 from wt_common import WT_LEAN, WT_TRUST, wt_engine
 
 PROP = {
-    "generated": [],
+    "generated": ["CounterSrc"],
     "lean_modules": WT_LEAN + ["SwimVerif.Model.LinksSys", "SwimVerif.Proofs.Links", "SwimVerif.Proofs.LinksTotal",
                                "SwimVerif.Proofs.LinksAll", "SwimVerif.Proofs.LinksEvents",
                                "SwimVerif.Proofs.LinksLaneEvents", "SwimVerif.Proofs.LinksWT",
                                "SwimVerif.Proofs.LinksWTInv", "SwimVerif.Proofs.LinksWTEvents",
                                "SwimVerif.Proofs.LinksWTLane", "SwimVerif.Proofs.LinksWTLive",
                                "SwimVerif.Proofs.LinksWTCount", "SwimVerif.Model.Counters",
+                               "SwimVerif.Model.CounterProg", "SwimVerif.Proofs.CounterProg", "SwimVerif.Generated.CounterSrc",
                                "SwimVerif.Model.ReadFeed", "SwimVerif.Proofs.ReadFeed",
                                "SwimVerif.Proofs.ReadFeedCount"],
     "engines": [wt_engine("C20", quick=4000),
@@ -45,7 +46,12 @@ PROP = {
                   "modelled as atomic steps (fetch_update / CAS loop are linearizable read-modify-writes). The "
                   "unrestricted statement (any lane id in a response) is false for model and code alike "
                   "(C20_write_task_links_fails: a reporter registered for a lane id that already has links is never "
-                  "told about them); the runtime only produces responses of registered lanes.",
+                  "told about them); the runtime only produces responses of registered lanes. Translator tie: saturating_add and "
+                  "snapshot_value are regenerated from agent/reporting/mod.rs on every run (Generated/CounterSrc.lean) and proved to "
+                  "perform exactly the add / load / cas steps of the interleaving model, for any number of spurious "
+                  "compare_exchange_weak failures (C20_source_snapshot_value_is_model, C20_source_saturating_add_is_model); the "
+                  "wiring of count_events / count_commands / set_uplinks / snapshot to them is checked as exact text; the "
+                  "vocabulary tables of tools/extractors/c20.py and CounterProg.execK are trusted.",
     "trusted_base": COMMON_TRUST + WT_TRUST + ["modelled, not verified: AtomicU64 counters (Relaxed, single location)"],
     "assumptions": ["command counters: lane endpoints stay open (a failed lane write is not in the read-feed model); "
                     "one read-task iteration is atomic with respect to snapshots",
